@@ -954,3 +954,53 @@ def _dec(s):
     if isinstance(s, str):
         return int(s)
     return sstr.parse_int(s)
+
+
+def scen_s2b_twice(ctx, M):
+    """two consecutive calls with different unit systems: the second result
+    must not depend on the first call (no state carried between calls)"""
+    su = M.su
+    pre = ctx.str('pre', 1, frozenset(b'kKMGTPEZYRQ'))
+    text = cat('3', pre, 'B')
+    systems = ['IEC', 'SI', 'mixed']
+    s1 = ctx.choice('sys1', systems)
+    s2 = ctx.choice('sys2', systems)
+    m = ctx.float('m', lo=-1e200, hi=1e200)
+
+    def hook(s):
+        return m
+    if ctx.sym:
+        env.FLOAT_HOOK[0] = hook
+    else:
+        su.float = hook
+    outs = []
+    try:
+        for sysname in (s1, s2):
+            try:
+                outs.append(('ok', su.string_to_bytes(text,
+                                                       unit_system=sysname)))
+            except ValueError:
+                outs.append(('ValueError', None))
+            except Exception as e:
+                outs.append(('EXC:' + type(e).__name__, None))
+    finally:
+        if ctx.sym:
+            env.FLOAT_HOOK[0] = None
+        else:
+            del su.float
+    for sysname, (out, r) in zip((s1, s2), outs):
+        table = UN.prefixes(sysname)
+        hit = None
+        for pf, be in sorted(table.items()):
+            if len(pf) == 1 and ctx.truth(pre == pf):
+                hit = be
+        if hit is None:
+            ctx.check('C10-twice-valueerror', out == 'ValueError')
+        else:
+            ctx.check('C10-twice-accepted', out == 'ok')
+            if out == 'ok':
+                want = m * pow(hit[0], hit[1])
+                ctx.check('C10-twice-exact', core.same_float(r, want)
+                          if ctx.sym else r == want)
+    ctx.goal('done')
+    return (outs[0][0], outs[1][0])
